@@ -9,7 +9,7 @@ import os
 import re
 
 from ..core.engine import Res
-from ..core.rules import (must_pass, must_pass_from, guard, wire, order, covers, writes_after_guard, errset,
+from ..core.rules import (struct_map, must_pass, must_pass_from, guard, wire, order, covers, writes_after_guard, errset,
                           guard_inventory, err_inventory, inventory_check)
 from ..core.fa_rule import fa_for
 from ..core.panics import panic_audit, TABLES
@@ -188,6 +188,35 @@ def run(ctx):
         ctx.check('COVERS', 'private message AAD',
                   lambda P_: covers(P_, 'PrivateContentAAD as From::from', 'PrivateContentAAD', 'PrivateMessage',
                                     ('encrypted_sender_data', 'ciphertext'), 'ciphertext'), floor=4)
+    SM = [
+        ('content TBS binds version, wire format, content and group context', 'AuthenticatedContentTBS::from_authenticated_content', 'AuthenticatedContentTBS',
+         {'protocol_version': r'^protocol_version$', 'wire_format': r'^auth_content\.wire_format$', 'content': r'^auth_content\.content$',
+          'context': r'group_context'}),
+        ('membership MAC covers the TBS and the signature / confirmation tag', 'AuthenticatedContentTBM::from_authenticated_content', 'AuthenticatedContentTBM',
+         {'content_tbs': r'^AuthenticatedContentTBS::from_authenticated_content\(auth_content', 'auth': r'^auth_content\.auth$'}),
+        ('confirmed transcript hash input = wire format, content, signature', 'transcript_hash::create', 'ConfirmedTranscriptHashInput',
+         {'wire_format': r'^content\.wire_format$', 'content': r'^content\.content$', 'signature': r'^content\.auth\.signature$'}),
+        ('interim transcript hash input = confirmation tag', 'InterimTranscriptHash::create', 'InterimTranscriptHashInput', {'confirmation_tag': r'^confirmation_tag$'}),
+    ]
+    if pm:
+        SM += [
+            ('sender-data AAD (receive): group id and epoch of the receiver state, content type of the message', 'CiphertextProcessor::open_sender_data', 'SenderDataAAD',
+             {'group_id': r'^GroupStateProvider::group_context\(self\.group_state\)\.group_id$', 'epoch': r'^GroupStateProvider::group_context\(self\.group_state\)\.epoch$',
+              'content_type': r'^ciphertext\.content_type$'}),
+            ('sender-data AAD (send)', 'CiphertextProcessor::seal', 'SenderDataAAD',
+             {'group_id': r'^GroupStateProvider::group_context\(self\.group_state\)\.group_id$', 'epoch': r'^GroupStateProvider::group_context\(self\.group_state\)\.epoch$',
+              'content_type': r'^auth_content\.content\.content'}),
+            ('content AAD (send) binds group id, epoch, content type, authenticated data', 'CiphertextProcessor::seal', 'PrivateContentAAD',
+             {'group_id': r'^auth_content\.content\.group_id$', 'epoch': r'^auth_content\.content\.epoch$', 'content_type': r'^auth_content\.content\.content',
+              'authenticated_data': r'^auth_content\.content\.authenticated_data$'}),
+            ('encrypted content = content + auth data (signature, confirmation tag)', 'CiphertextProcessor::seal', 'PrivateMessageContent',
+             {'content': r'^auth_content\.content\.content$', 'auth': r'^auth_content\.auth$'}),
+        ]
+    for name, fq, T, mp_ in SM:
+        ctx.check('COVERS', name, lambda P_, fq=fq, T=T, mp_=mp_: struct_map(P_, fq, T, mp_, 'self'), floor=len(mp_))
+    if pm:
+        ctx.check('WIRE', 'content AAD (receive) is rebuilt from the received message',
+                  lambda P_: wire(P_, 'CiphertextProcessor::open', r'MlsEncode::mls_encode_to_vec$', 0, r'PrivateContentAAD|ciphertext'), floor=1)
     # inventories
     gi, ei = _load('guard_inventory.json').get(cfg), _load('err_inventory.json').get(cfg)
 
